@@ -296,8 +296,8 @@ class Printer:
                 self.nodes(b)
             j = len(n['conds'])
             if n.get('else') is not None:
-                self.emit('tag', _tag(sx, st, 'else', [], 'cont'),
-                          ('cont', 'if'))
+                self.emit('tag', _tag(sx, st, 'else', self.else_args(first),
+                                      'cont'), ('cont', 'if'))
                 self.eol(n, j)
                 self.nodes(n['else'])
                 j += 1
@@ -314,8 +314,8 @@ class Printer:
             self.nodes(n['body'])
             j = 1
             if n.get('else') is not None:
-                self.emit('tag', _tag(sx, st, 'else', [], 'cont'),
-                          ('cont', 'in'))
+                self.emit('tag', _tag(sx, st, 'else', self.else_args(attrs),
+                                      'cont'), ('cont', 'in'))
                 self.eol(n, 1)
                 self.nodes(n['else'])
                 j = 2
@@ -380,6 +380,16 @@ class Printer:
             self.emit('tag', n['src'][sx], ('inline', 'raw'))
         else:
             raise ValueError(k)
+
+    def else_args(self, open_attrs):
+        """The else tag may repeat the name the block was opened with."""
+        if self.style.plain or not open_attrs:
+            return []
+        a = open_attrs[0]
+        if self.style.pick(4) == 0 and re.match(r'[A-Za-z][A-Za-z0-9_]*\Z',
+                                                 a):
+            return [a]
+        return []
 
     def block1(self, n, name, attrs, body):
         self.emit('tag', _tag(self.syntax, self.style, name, attrs, 'open'),
